@@ -314,7 +314,8 @@ def handle (M : Mode R) (s : State R) (j : Json) : Except String (State R × Jso
         Json.arr (outs.toArray.map fun n =>
           Json.arr ((Array.range n.units).map fun i =>
             Json.str (A.show_ (Node.sumOver S (zs.filter fun z => n.vars.contains z)
-              (fun y => n.eval A.toOps y i) (rowFn A row)))))
+              -- unit `i` through the vectorised evaluator (`evalV_correct`: equal to `eval`, linear cost)
+              (fun y => (n.evalV A.toOps y).getD i A.toOps.zero) (rowFn A row)))))
       pure (s, Json.mkObj [("ok", Json.arr res.toArray)])
   | "masked_eval" => do
       let c ← s.get (← getStr j "id")
